@@ -105,6 +105,36 @@ pub assume_specification<Q: core::convert::AsRef<std::path::Path>>[ std::fs::Fil
         r.is_ok() ==> h_path(&r->Ok_0) == arp(path) && h_writable(&r->Ok_0) && h_view(&r->Ok_0) == Seq::<u8>::empty(),
 ;
 
+/// fs::create_dir_all / create_dir: creates directories - a mutation, so it needs permission for that path (C10)
+pub assume_specification<Q: core::convert::AsRef<std::path::Path>>[ std::fs::create_dir_all::<Q> ](path: Q) -> (r: std::io::Result<()>)
+    requires
+        allowed_create(arp(path)),
+;
+pub assume_specification<Q: core::convert::AsRef<std::path::Path>>[ std::fs::create_dir::<Q> ](path: Q) -> (r: std::io::Result<()>)
+    requires
+        allowed_create(arp(path)),
+;
+/// fs::rename: removes `from` and creates or replaces `to`
+pub assume_specification<Q: core::convert::AsRef<std::path::Path>, R: core::convert::AsRef<std::path::Path>>[ std::fs::rename::<Q, R> ](from: Q, to: R) -> (r: std::io::Result<()>)
+    requires
+        allowed_remove(arp(from)),
+        allowed_create(arp(to)),
+;
+/// fs::copy: creates or replaces `to`
+pub assume_specification<Q: core::convert::AsRef<std::path::Path>, R: core::convert::AsRef<std::path::Path>>[ std::fs::copy::<Q, R> ](from: Q, to: R) -> (r: std::io::Result<u64>)
+    requires
+        allowed_create(arp(to)),
+;
+/// fs::remove_dir_all / remove_dir
+pub assume_specification<Q: core::convert::AsRef<std::path::Path>>[ std::fs::remove_dir_all::<Q> ](path: Q) -> (r: std::io::Result<()>)
+    requires
+        allowed_remove(arp(path)),
+;
+pub assume_specification<Q: core::convert::AsRef<std::path::Path>>[ std::fs::remove_dir::<Q> ](path: Q) -> (r: std::io::Result<()>)
+    requires
+        allowed_remove(arp(path)),
+;
+
 /// File::open: read-only handle positioned at the start of the current content
 pub assume_specification<Q: core::convert::AsRef<std::path::Path>>[ std::fs::File::open::<Q> ](path: Q) -> (r: std::io::Result<std::fs::File>)
     ensures
